@@ -28,6 +28,7 @@ type rQueue struct {
 	arrive    chan rArrival
 	gated     atomic.Bool
 	pushGated atomic.Bool
+	sizeDone  atomic.Bool // Size also stalls after it has taken its reading
 	failPops  atomic.Int32 // the next so many Pop calls fail
 	popFails  atomic.Int32
 }
@@ -48,7 +49,14 @@ func (q *rQueue) gate(n string) {
 		<-a.rel
 	}
 }
-func (q *rQueue) Size() (int, error) { q.gate("Size"); return q.JobQueue.Size() }
+func (q *rQueue) Size() (int, error) {
+	q.gate("Size")
+	n, e := q.JobQueue.Size()
+	if q.sizeDone.Load() {
+		q.gate("SizeDone") // the slow part comes after the reading was taken
+	}
+	return n, e
+}
 func (q *rQueue) Head() (quartz.ScheduledJob, error) {
 	q.gate("Head")
 	j, e := q.JobQueue.Head()
